@@ -723,3 +723,38 @@ def octet_top(v: Int, n: Int):
     ensures((v // pow2(n - 1)) % 2 == ((v // pow2(n - 8)) % 256) // 128)
     pow2_add(7, n - 8)
     div_div128(v, pow2(n - 8))
+
+
+def bin_digits(x) -> Str:
+    """bin(x)[2:] for x >= 0: the binary digits of x, most significant first ('0' for 0)"""
+    if x < 2:
+        return '1' if x == 1 else '0'
+    return bin_digits(x // 2) + ('1' if x % 2 == 1 else '0')
+
+
+def bin_digits__facts(x, r):
+    return implies(x >= 1, len(r) == blen(x)) and implies(x < 1, len(r) == 1)
+
+
+@lemma
+def fact_bin_digits(x: Int):
+    nofacts("bin_digits")
+    ensures(implies(x >= 1, len(bin_digits(x)) == blen(x)) and implies(x < 1, len(bin_digits(x)) == 1))
+    decreases(x)
+    if x >= 2:
+        fact_bin_digits(x // 2)
+
+
+def str_upper__facts(s, r):
+    return len(r) == len(s)
+
+
+@lemma
+def blen_exact(x: Int, n: Int):
+    """2^(n-1) <= x < 2^n  ==>  blen(x) == n"""
+    requires(n >= 1 and pow2(n - 1) <= x and x < pow2(n))
+    ensures(blen(x) == n)
+    blen_le(x, n)
+    blen_upper(x)
+    if blen(x) <= n - 1:
+        pow2_mono(blen(x), n - 1)
